@@ -1,3 +1,3 @@
-import BtcVerif.Proofs.ScriptEvalInv4
-#print axioms BtcVerif.Model.ScriptEval.checkMultiSig_good
-#print axioms BtcVerif.Model.ScriptEval.opCheckSig_good
+import BtcVerif.Proofs.ScriptNumCodec
+#print axioms BtcVerif.Model.ScriptEval.bn2vch_eq
+#print axioms BtcVerif.Model.ScriptEval.castToBigNum_eq
